@@ -13,6 +13,7 @@ from typing import (
     List,
     Optional,
     Sequence,
+    Set,
     Tuple,
     Type,
     Union,
@@ -35,6 +36,7 @@ from pdfminer.pdfexceptions import (
 from pdfminer.pdfparser import PDFParser, PDFStreamParser, PDFSyntaxError
 from pdfminer.pdftypes import (
     DecipherCallable,
+    PDFObjRef,
     PDFStream,
     decipher_all,
     dict_value,
@@ -880,19 +882,32 @@ class PDFDocument:
         if "Outlines" not in self.catalog:
             raise PDFNoOutlines
 
+        # Object ids of the items seen so far: a damaged outline whose
+        # First/Next links form a cycle must not be walked forever.
+        visited: Set[int] = set()
+
         def search(entry: object, level: int) -> Iterator[PDFDocument.OutlineType]:
-            entry = dict_value(entry)
-            if "Title" in entry:
-                if "A" in entry or "Dest" in entry:
-                    title = decode_text(str_value(entry["Title"]))
-                    dest = entry.get("Dest")
-                    action = entry.get("A")
-                    se = entry.get("SE")
-                    yield (level, title, dest, action, se)
-            if "First" in entry and "Last" in entry:
-                yield from search(entry["First"], level + 1)
-            if "Next" in entry:
-                yield from search(entry["Next"], level)
+            # Siblings (Next) are walked in a loop and only children (First)
+            # recurse, so the stack depth is the nesting depth of the outline
+            # and not the number of items on one level.
+            while True:
+                if isinstance(entry, PDFObjRef):
+                    if entry.objid in visited:
+                        return
+                    visited.add(entry.objid)
+                entry = dict_value(entry)
+                if "Title" in entry:
+                    if "A" in entry or "Dest" in entry:
+                        title = decode_text(str_value(entry["Title"]))
+                        dest = entry.get("Dest")
+                        action = entry.get("A")
+                        se = entry.get("SE")
+                        yield (level, title, dest, action, se)
+                if "First" in entry and "Last" in entry:
+                    yield from search(entry["First"], level + 1)
+                if "Next" not in entry:
+                    return
+                entry = entry["Next"]
 
         return search(self.catalog["Outlines"], 0)
 
